@@ -36,7 +36,7 @@ Definition qidx (names : list tx) (k : qual) : string :=
 
 Fixpoint count_uu (t : tx) : list nat :=
   match t with
-  | TA (AUu u) => [u]
+  | TCat (TA (AS "WHERE-DEDUP")) (TCat (TA (ACt u)) _) => [u]
   | TCat l r => count_uu l ++ count_uu r
   | _ => []
   end.
